@@ -100,3 +100,103 @@ def is_nan(ex, st, info, args):
     if x.concrete:
         return x.v != x.v
     return mk_bool(z3.fpIsNaN(x.v))
+
+
+# ------------------------------------------------------------------------------------ inherent f64 / f32 methods
+def _fmethod(*names):
+    def deco(fn):
+        for n in names:
+            for t in ('f64', 'f32'):
+                B.paths['%s::%s' % (t, n)] = fn
+        return fn
+    return deco
+
+
+def _rounder(mode, py):
+    def f(ex, st, info, args):
+        x = args[0]
+        if x.concrete:
+            v = x.v
+            if v != v or math.isinf(v):
+                return x
+            return mk_flt(x.ty, float(py(v)))
+        return Flt(x.ty, z3.fpRoundToIntegral(mode, x.v))
+    return f
+
+
+def _py_round_away(v):
+    return math.floor(abs(v) + 0.5) * (1 if v >= 0 else -1)
+
+
+_fmethod('round')(_rounder(z3.RNA(), _py_round_away))
+_fmethod('round_ties_even')(_rounder(z3.RNE(), lambda v: round(v)))
+_fmethod('floor')(_rounder(z3.RTN(), math.floor))
+_fmethod('ceil')(_rounder(z3.RTP(), math.ceil))
+_fmethod('trunc')(_rounder(z3.RTZ(), math.trunc))
+
+
+@_fmethod('min')
+def f_min(ex, st, info, args):
+    a, b = args
+    if a.concrete and b.concrete:
+        return mk_flt(a.ty, min(a.v, b.v) if a.v == a.v and b.v == b.v else (b.v if a.v != a.v else a.v))
+    return Flt(a.ty, z3.fpMin(to_fp(a), to_fp(b)))
+
+
+@_fmethod('max')
+def f_max(ex, st, info, args):
+    a, b = args
+    if a.concrete and b.concrete:
+        return mk_flt(a.ty, max(a.v, b.v) if a.v == a.v and b.v == b.v else (b.v if a.v != a.v else a.v))
+    return Flt(a.ty, z3.fpMax(to_fp(a), to_fp(b)))
+
+
+@_fmethod('mul_add')
+def f_mul_add(ex, st, info, args):
+    a, b, c = args
+    return Flt(a.ty, z3.fpFMA(RNE, to_fp(a), to_fp(b), to_fp(c)))
+
+
+@_fmethod('signum')
+def f_signum(ex, st, info, args):
+    x = args[0]
+    s = FLOAT_TYPES[x.ty]
+    v = to_fp(x)
+    return Flt(x.ty, z3.If(z3.fpIsNaN(v), v, z3.If(z3.fpIsNegative(v), z3.FPVal(-1.0, s), z3.FPVal(1.0, s))))
+
+
+@_fmethod('rem_euclid')
+def f_rem_euclid(ex, st, info, args):
+    from .execu import fp_fmod, fp_cmp
+    a, b = args
+    r = fp_fmod(to_fp(a), to_fp(b), a.ty)
+    neg = to_z3bool(fp_cmp('Lt', r, z3.FPVal(0.0, FLOAT_TYPES[a.ty])))
+    return Flt(a.ty, z3.If(neg, z3.fpAdd(RNE, r, z3.fpAbs(to_fp(b))), r))
+
+
+for _n, _a in (('sin', 1), ('cos', 1), ('tan', 1), ('atan', 1), ('asin', 1), ('acos', 1), ('exp', 1), ('ln', 1), ('atan2', 2), ('hypot', 2), ('powf', 2)):
+    for _t in ('f64', 'f32'):
+        B.paths['%s::%s' % (_t, _n)] = _uf_builtin({'ln': 'log', 'powf': 'pow'}.get(_n, _n), _a)
+
+
+@_fmethod('powi')
+def f_powi(ex, st, info, args):
+    x, n = args
+    if not n.concrete or abs(n.v) > 8:
+        raise ExecError('powi with symbolic / large exponent')
+    s = FLOAT_TYPES[x.ty]
+    r = z3.FPVal(1.0, s)
+    for _ in range(abs(n.v)):
+        r = z3.fpMul(RNE, r, to_fp(x))
+    if n.v < 0:
+        r = z3.fpDiv(RNE, z3.FPVal(1.0, s), r)
+    return Flt(x.ty, r)
+
+
+@_fmethod('is_finite')
+def f_is_finite(ex, st, info, args):
+    x = args[0]
+    if x.concrete:
+        return not (math.isinf(x.v) or x.v != x.v)
+    from .execu import fp_atom
+    return fp_atom(z3.Not(z3.Or(z3.fpIsInf(x.v), z3.fpIsNaN(x.v))))
